@@ -135,7 +135,15 @@ theorem step1_raw (F base : ℕ) (digits : List ℕ) (bound it : ℕ) (limbs : L
   unfold Ruint.Gen.macro_parse_digits_step1 gdig
   simp only [step3_eq, step4_eq, hit, decide_true, if_true, Bool.and_eq_true, decide_eq_true_eq, ge_iff_le,
     gt_iff_lt, beq_iff_eq]
-  split_ifs <;> rfl
+  by_cases h1 : 48 ≤ digits.getD it 0 ∧ digits.getD it 0 ≤ 57
+  · rw [if_pos h1, if_pos h1]
+  · rw [if_neg h1, if_neg h1]
+    by_cases h2 : 97 ≤ digits.getD it 0 ∧ digits.getD it 0 ≤ 102
+    · rw [if_pos h2, if_pos h2]
+    · rw [if_neg h2, if_neg h2]
+      by_cases h3 : 65 ≤ digits.getD it 0 ∧ digits.getD it 0 ≤ 70
+      · rw [if_pos h3, if_pos h3]
+      · rw [if_neg h3, if_neg h3]
 
 theorem step1_end (F base : ℕ) (digits : List ℕ) (bound : ℕ)
     (st : (ℕ × List ℕ) × Option (Option (Except (ℕ × ℕ × ℕ) (List ℕ)))) (hit : ¬ st.1.1 < bound) :
@@ -203,8 +211,8 @@ theorem outer_eq (base : ℕ) (hb : base < 2 ^ 64) (cs : List Char) (h64 : cs.le
       by_cases hu : c = '_'
       · have := ih (pre ++ [c]) limbs g hcs' hw (by simp; omega) hg'
         simp only [List.length_append, List.length_singleton] at this
-        simp only [hu, if_true, digitLoop, hd]
-        rw [← hu]; exact this
+        simp only [if_pos hu, digitLoop, hd]
+        exact this
       · simp only [hu, if_false, digitLoop, hd, Bool.false_eq_true, fin, Option.getD_some, toRes,
           Char.ofNat_toNat]
     | some d =>
@@ -243,6 +251,9 @@ theorem utf8Len_eq (cs : List Char) : Rs.utf8Len (cs.map Char.toNat) = Ruint.Mac
   unfold Ruint.Macro.utf8Len
   rw [h]; simp
 
+theorem map_eq_iff (l m : List Char) : l.map Char.toNat = m.map Char.toNat ↔ l = m :=
+  List.map_inj_right (fun _ _ h => Char.toNat_inj.mp h)
+
 theorem parse_digits_eq (cs : List Char) (hl : cs.length < 2 ^ 63) (f : ℕ) (hf : 2 * cs.length + 4 < f) :
     toRes (Ruint.Gen.macro_parse_digits f (cs.map Char.toNat)) = Ruint.Macro.parseDigits cs := by
   have hs := GenStr.split_len cs 2
@@ -254,7 +265,7 @@ theorem parse_digits_eq (cs : List Char) (hl : cs.length < 2 ^ 63) (f : ℕ) (hf
   simp only [step5_eq, utf8Len_eq, GenStr.isCB_eq, GenStr.split_eq,
     show ([48, 120] : List ℕ) = ['0', 'x'].map Char.toNat from rfl,
     show ([48, 111] : List ℕ) = ['0', 'o'].map Char.toNat from rfl,
-    show ([48, 98] : List ℕ) = ['0', 'b'].map Char.toNat from rfl, GenStr.map_beq,
+    show ([48, 98] : List ℕ) = ['0', 'b'].map Char.toNat from rfl, beq_iff_eq,
     decide_eq_true_eq, ge_iff_le]
   by_cases h2 : 2 ≤ Ruint.Macro.utf8Len cs
   · simp only [h2, if_true]
@@ -263,6 +274,7 @@ theorem parse_digits_eq (cs : List Char) (hl : cs.length < 2 ^ 63) (f : ℕ) (hf
       generalize splitAtByte cs 2 = p at hs ⊢
       obtain ⟨pfx, rest⟩ := p
       dsimp only at hs ⊢
+      simp only [map_eq_iff]
       split_ifs <;> dsimp only <;> apply R <;> omega
     · simp only [hcb, if_false, Bool.false_eq_true, not_false_eq_true, if_true, toRes]
   · simp only [h2, if_false]
